@@ -291,6 +291,12 @@ def configs(tier):
                         "bin_specs": {"L": {"sum": True}, "t": {"average": True}, "b:L": [{}, {"sum": True}],
                                       "i:t": [{"edges": [0, 2]}, {"sum": True}],
                                       "x:L": [{"num": 2, "low": 0.0, "high": 2.0}, {"max": True}]}}),
+        # leaf aggregators under axes that weight the rows (cut / fraction: the weight is the column's value) and under
+        # sparse / categorical axes (a key that first shows up in a later chunk is adopted by the merge)
+        ("explicit-D", {"features": ["i:x", "x:i", "b:i", "t:i", "i:b:x"], "binning": "unit",
+                        "bin_specs": {"i:x": [{"cut": True}, {"deviate": True}], "x:i": [{"fraction": True}, {"average": True}],
+                                      "b:i": [{}, {"bag": True}], "t:i": [{"binWidth": 30 * 86400e9, "origin": 0.0}, {"bag": True}],
+                                      "i:b:x": [{"cut": True}, {}, {"deviate": True}]}}),
         # a time axis whose binning is given explicitly, in every spelling the filler accepts
         ("time_axis/edges", {"time_axis": "t", "features": ["t:x", "t:b"], "binning": "unit",
                              "bin_specs": {"t": {"edges": [T0, T1, T2]}}}),
